@@ -130,6 +130,19 @@ impl<'a> BytesStart<'a> {
         }
     }
 //@end
+//@extract events::BytesStart::with_attributes | src/events/mod.rs :: impl<'a> BytesStart<'a> :: fn with_attributes | serves=C09
+ pub fn with_attributes<'b, I>(self, attributes: I) -> (r: Self)
+    where
+        I: IntoIterator,
+        I::Item: Into<Attribute<'b>>,
+        requires forall|x: I::Item| call_requires(<I::Item as Into<Attribute<'b>>>::into, (x,)),
+        // C09: the tag only grows; its name stays
+        ensures r.name_len == self.name_len, r.buf@.len() >= self.buf@.len(), r.buf@.subrange(0, self.buf@.len() as int) == self.buf@,
+    { let mut self__ = self;
+        self__.extend_attributes(attributes);
+        self__
+    }
+//@end
 //@extract events::BytesStart::extend_attributes | src/events/mod.rs :: impl<'a> BytesStart<'a> :: fn extend_attributes | serves=C09
 //@rewrite let mut __it1 = attributes; ==> let mut __it1 = attributes.into_iter();
  #[verifier::exec_allows_no_decreases_clause]
